@@ -117,6 +117,17 @@ def rule_PL1(ctx, tier):
             rr.ok("hook closure awaits the handler before answering")
         elif not (isinstance(cbk, tuple) and cbk and cbk[0] == "closure"):
             rr.fail("hook-callback", "the commitment_revocation hook is registered with `%s`, not with on_commitment_revocation" % og.show(cbk)[:100], where=cb_.line_of(bb_))
+    # the notification is taken whatever else lightningd (a newer version, a chained plugin) puts next to the four members the
+    # client reads: the decoder of the hook payload has no unknown_field error — a refused payload is a revocation recorded nowhere
+    dec = [bid for bid in P.bodies if "Deserialize<'de> for watchtower_plugin::convert::CommitmentRevocation>::deserialize" in bid]
+    if not dec:
+        rr.anchor_missing("derived Deserialize of convert::CommitmentRevocation")
+    else:
+        strict = [(bid, bb) for bid in dec for bb, t in P.bodies[bid].calls() if (call_target(t) or "").split("::")[-1] in ("unknown_field", "unknown_variant")]
+        if not strict:
+            rr.ok("hook payload decoder ignores members it does not know (%d generated bodies)" % len(dec))
+        else:
+            rr.fail("hook-payload-strict", "the decoder of the commitment_revocation payload refuses unknown members: a notification that carries anything beyond the four fields the client reads is dropped before any tower is tried, and the revocation is recorded in none of accepted / pending / invalid", where=P.bodies[strict[0][0]].line_of(strict[0][1]))
     nexts = [bb for bb in b.rpo() if is_iter_next(b, bb) and "vec::IntoIter" in (call_target(b.term(bb)) or "")]
     if len(nexts) != 1:
         rr.fail("loop-shape", "expected exactly one per-tower loop in on_commitment_revocation (found %d)" % len(nexts), where=b.span)
@@ -972,8 +983,9 @@ def rule_PL7(ctx, tier):
         "watchtower_plugin::TowerInfo::set_misbehaving_proof": {"misbehaving_proof"},
         PDBM + "load_towers": {"status"},   # loader: status reconstruction (checked by the sibling-agreement rule below)
     }
-    from .rulekit import generated_keys_persisted
+    from .rulekit import generated_keys_persisted, ctors_keep_args
     generated_keys_persisted(ctx, rr, ("watchtower_plugin::",), PDBM + "store_client_key", "client")
+    ctors_keep_args(ctx, rr, "client")
     # `abandontower` answers "successfully abandoned" only after WTClient::remove_tower ran
     ab = None
     for bid in P.family("watchtower_client::abandon_tower") if "watchtower_client::abandon_tower" in P.bodies else []:
@@ -1307,5 +1319,39 @@ def rule_PT(ctx, tier):
             rr.ok("%s == %s" % (shortfn(bid), sorted(exp)), sample={"rule": "PT", "predicate": bid, "table": t})
         else:
             rr.fail("named-predicate:%s=%s" % (shortfn(bid), ",".join(sorted(good)) or "nothing"), "`%s` is true for %s, its name and its callers mean %s" % (shortfn(bid), sorted(good) or "no variant", sorted(exp)), where=b.span)
+    # AddressType::get_type: an address is Tor exactly when it carries the `.onion:` marker — nothing else about the host part
+    # decides it (the transport picks the SOCKS proxy on this answer: an onion address taken for clearnet is dialled directly and
+    # never resolves, the tower looks unreachable for ever although it is up)
+    gt = P.bodies.get("teos_common::net::AddressType::get_type")
+    if gt is None:
+        rr.anchor_missing("teos_common::net::AddressType::get_type")
+    else:
+        sites_ = {"TorV3": [], "IpV4": []}
+        for bb in gt.rpo():
+            for st_ in gt.blocks[bb]["s"]:
+                if st_["k"] == "assign" and st_["rv"]["k"] == "agg" and st_["rv"].get("variant") in sites_ and str(st_["rv"].get("adt", "")).endswith("AddressType"):
+                    sites_[st_["rv"]["variant"]].append(bb)
+        bad = []
+        for var, want in (("TorV3", True), ("IpV4", False)):
+            for bb in sites_[var]:
+                seen_marker = False
+                for f in facts_at(ctx, gt, bb):
+                    subj = og.strip(f[1])
+                    is_marker_test = isinstance(subj, tuple) and subj and subj[0] == "call" and subj[1].split("::")[-1] in ("contains", "find", "rfind", "split_once", "rsplit_once") \
+                        and any(isinstance(a_, tuple) and a_ and a_[0] == "const" and a_[1] == ".onion:" for a_ in map(og.strip, subj[2]))
+                    if not is_marker_test:
+                        bad.append((bb, "%s decided by `%s`" % (var, og.show(f[1])[:60])))
+                        continue
+                    val = f[2] if f[0] == "truth" else (f[2] == "Some")
+                    if val == want:
+                        seen_marker = True
+                    else:
+                        bad.append((bb, "%s answered when the marker test says %s" % (var, val)))
+                if not seen_marker:
+                    bad.append((bb, "%s answered without testing for `.onion:`" % var))
+        if sites_["TorV3"] and sites_["IpV4"] and not bad:
+            rr.ok("get_type: TorV3 iff the address contains `.onion:`", sample={"rule": "PT", "function": "AddressType::get_type", "decision": "contains(\".onion:\")"})
+        else:
+            rr.fail("address-classification", "AddressType::get_type does not answer TorV3 exactly for the addresses that contain `.onion:` (%s): onion hosts with another shape (a subdomain label, a future key length) are dialled as clearnet and can never be reached" % ("; ".join(x[1] for x in bad[:3]) or "TorV3 / IpV4 sites not found"), where=gt.line_of(bad[0][0]) if bad else gt.span)
     rr.require_floor(9, "named predicates folded")
     return rr
